@@ -1,7 +1,69 @@
-//! op "map" (stub: answers bad-op until the engine is built)
+//! op "map" (C17): compile and run a program (as op "run" does, without limits), dump the requested
+//! bindings canonically (`get`) and additionally give the `Debug` rendering of the bindings listed in
+//! `layout` — for a mapping / set that rendering shows the bucket table (`inner`) and the `len` field, from
+//! which the check reads the internal layout (hash -> bucket entries in order).
 
-use serde_json::{json, Value};
+use crate::run::{compile, limits_from, viol_name};
+use crate::doubles::{reset_touches, RecClock, RecWriter};
+use serde_json::{json, Map, Value};
+use xray::builtin::verif_hooks as hooks;
+use xray::root_runtime_scope::{GetValueError, RootEvaluationScope};
+use xray::runtime::RTCell;
 
-pub fn op(_req: &Value) -> Value {
-    json!({"bad-op": true})
+pub fn op(req: &Value) -> Value {
+    let src = req["src"].as_str().unwrap_or("");
+    let mut resp = Map::new();
+    reset_touches();
+    let comp = match compile(src) {
+        Ok(c) => c,
+        Err(e) => {
+            resp.insert("compile".into(), e);
+            return Value::Object(resp);
+        }
+    };
+    resp.insert("compile".into(), json!("ok"));
+    let limits = limits_from(req.get("limits").unwrap_or(&Value::Null));
+    let writer = RecWriter::default();
+    let rt: RTCell<crate::run::W, crate::run::R, crate::run::T> =
+        limits.to_runtime(writer, RecClock { now: 1_000_000.0 });
+    let eval = RootEvaluationScope::from_compilation_scope(&comp, rt.clone());
+    match &eval {
+        Err(e) => {
+            resp.insert(
+                "inst".into(),
+                json!({ "viol": viol_name(&Err(e.clone())) }),
+            );
+        }
+        Ok(eval) => {
+            resp.insert("inst".into(), json!("ok"));
+            let mut vals = Map::new();
+            if let Some(names) = req.get("get").and_then(|x| x.as_array()) {
+                for n in names {
+                    let n = n.as_str().unwrap_or("");
+                    let d = match eval.get_value(n) {
+                        Ok(v) => hooks::dump_value(v),
+                        Err(GetValueError::NotFound) => "!notfound".to_string(),
+                        Err(GetValueError::NonValueCell) => "!nonvalue".to_string(),
+                    };
+                    vals.insert(n.to_string(), json!(d));
+                }
+            }
+            resp.insert("vals".into(), Value::Object(vals));
+            let mut lay = Map::new();
+            if let Some(names) = req.get("layout").and_then(|x| x.as_array()) {
+                for n in names {
+                    let n = n.as_str().unwrap_or("");
+                    let d = match eval.get_value(n) {
+                        Ok(Ok(v)) => format!("{:?}", v.value),
+                        Ok(Err(e)) => format!("(error {:?})", e.error),
+                        Err(GetValueError::NotFound) => "!notfound".to_string(),
+                        Err(GetValueError::NonValueCell) => "!nonvalue".to_string(),
+                    };
+                    lay.insert(n.to_string(), json!(d));
+                }
+            }
+            resp.insert("layout".into(), Value::Object(lay));
+        }
+    }
+    Value::Object(resp)
 }
